@@ -64,6 +64,11 @@ func RespDiff(op Op, a, b Resp) *Diff {
 	switch op.K {
 	case KGet, KUpd, KDel:
 		if !val.ItemEqual(a.Item, b.Item) {
+			// the recorded defect of the v2 mapper (empty containers come back as NULL, C10) also
+			// separates the two clients: attributed only when it accounts for the whole difference
+			if a.Item != nil && b.Item != nil && val.ItemEqual(val.NullifyEmpty(a.Item), b.Item) {
+				return &Diff{Kind: op.K + "|item|explained-by-empty-container-returned-as-NULL", Detail: a.Item.Canon() + " / " + b.Item.Canon()}
+			}
 			return &Diff{Kind: op.K + "|item", Detail: a.Item.Canon() + " / " + b.Item.Canon()}
 		}
 	case KQuery, KScan:
@@ -71,6 +76,13 @@ func RespDiff(op Op, a, b Resp) *Diff {
 			return &Diff{Kind: op.K + "|count", Detail: fmt.Sprintf("%d / %d", a.Count, b.Count)}
 		}
 		if op.K == KQuery && !itemSeqEqual(a.Items, b.Items) || op.K == KScan && !sameMultiset(a.Items, b.Items) {
+			na := make([]val.Item, len(a.Items))
+			for i := range a.Items {
+				na[i] = val.NullifyEmpty(a.Items[i])
+			}
+			if op.K == KQuery && itemSeqEqual(na, b.Items) || op.K == KScan && sameMultiset(na, b.Items) {
+				return &Diff{Kind: op.K + "|items|explained-by-empty-container-returned-as-NULL", Detail: fmt.Sprintf("%v / %v", multiset(a.Items), multiset(b.Items))}
+			}
 			return &Diff{Kind: op.K + "|items", Detail: fmt.Sprintf("%v / %v", multiset(a.Items), multiset(b.Items))}
 		}
 		if !val.ItemEqual(a.LEK, b.LEK) {
